@@ -948,7 +948,43 @@ def meta_C20(seed, tier, bins, n=None):
             if p.sid not in bad:
                 p.no_minimise = True
                 bad[p.sid] = (p, ["C20 twin run: line #%d %r answered %r inside the concatenation but %r when fed alone (variables carried over)" % (one.meta["index"], p.meta["lines"][one.meta["index"]], one.meta["expect"], got)])
-    META_COUNT["C20"] = len(singles)
+    # hold history: an earlier line (or an application call) asks to leave a hold that is not there; a later
+    # line enters a hold and is released by the application.  The later line must behave as when fed alone.
+    pairs = []
+    m = max(8, n // 5)
+    for k in range(m):
+        sc = Scenario("C20-twinhold-%d-%d" % (seed, k), cap=1, buf=128, uns=-1, mutex=0)
+        sc.group()
+        sc.cmd(Cmd(b"+JOB", None, "xr", None))
+        sc.cmd(Cmd(b"+Q", None, "x", None))
+        first = rng.choice([b"AT+Q\n", b"AT+JOB?\r\n", b"AT+Q\r\n"])
+        early = rng.choice(["5", "6", "3"])             # HOLD_EXIT_OK / HOLD_EXIT_ERROR outside a hold, or plain OK
+        stray = rng.random() < 0.4                       # cat_hold_exit() by the application outside a hold
+        later = rng.choice([b"AT+JOB\n", b"AT+JOB\r\n", b"AT+JOB?\n"])
+        rel = rng.choice([0, 1])
+        wait = rng.randint(5, 60)
+        tail = ["in " + hx(later)] + ["svc 1 1"] * wait + ["hold", "hexit %d" % rel, "drain 4000 1 1"]
+        sc.ops = ["hq " + early + ",4,3,3"] + ["in " + hx(first), "drain 4000 1 1"] + (["hexit %d" % rng.choice([0, 1])] if stray else []) + tail
+        one = copy.copy(sc)
+        one.sid = sc.sid + "-alone"
+        one.ops = ["hq 4,3,3"] + tail
+        sc.meta["first"] = first
+        pairs.append((sc, one))
+    tr3 = lib.run_impl([x for p in pairs for x in p], bins)
+    for sc, one in pairs:
+        a, b = oracles.An(sc, tr3[sc.sid]), oracles.An(one, tr3[one.sid])
+        if a.tr.abort or b.tr.abort or not (a.drained_ok() and b.drained_ok()):
+            continue
+        # the output of the later line = everything after the first line's answer
+        whole, alone = a.outbytes(), b.outbytes()
+        ra = [l.ret for l, o in zip(a.lines, [a.op_of(i) for i in range(len(a.lines))]) if o.startswith(("hold", "hexit"))][-2:]
+        rb = [l.ret for l, o in zip(b.lines, [b.op_of(i) for i in range(len(b.lines))]) if o.startswith(("hold", "hexit"))][-2:]
+        if not whole.endswith(alone) or ra != rb:
+            sc.no_minimise = True
+            bad[sc.sid] = (sc, ["C20 twin run (hold history): after the line %r the line that enters a hold and is released by the application "
+                                "produced %r in total and cat_is_hold / cat_hold_exit returned %r; fed alone it produces %r and they return %r"
+                                % (sc.meta["first"], whole, ra, alone, rb)])
+    META_COUNT["C20"] = len(singles) + len(pairs)
     return list(bad.values())
 
 
